@@ -24,8 +24,8 @@ import os
 import common
 
 SRC_ROOT = 'exactly_lib'
-EXTERNAL_BASES = {'ABC', 'Generic', 'object', 'Enum'}
-ALLOWED_DUNDERS = {'__init__', '__str__', '__repr__'}
+EXTERNAL_BASES = {'ABC', 'Generic', 'object', 'Enum', 'IntEnum', 'tuple'}
+ALLOWED_DUNDERS = {'__init__', '__new__', '__str__', '__repr__', '__eq__', '__hash__'}  # == on objects is always refused (PyVal.py_eqb)
 BUILTINS = {'len', 'min', 'max', 'sorted', 'filter', 'reversed', 'list', 'tuple', 'abs', 'map'}
 LAZY = {'filter', 'reversed', 'map'}  # iterators: only where they are consumed at once
 
@@ -204,7 +204,7 @@ class Translator:
         return [k._src for k in mk(mod, cls).__mro__ if k is not object]
 
     def is_enum(self, mod, cls):
-        return any(isinstance(b, ast.Name) and b.id == 'Enum' and self.resolve(mod, 'Enum') == ('external', 'enum', 'Enum')
+        return any(isinstance(b, ast.Name) and b.id in ('Enum', 'IntEnum') and self.resolve(mod, b.id) == ('external', 'enum', b.id)
                    for b in cls.bases)
 
     def member(self, mod, cls, name):
@@ -226,11 +226,27 @@ class Translator:
                         raise Unsupported('class attribute %s.%s' % (c.name, name))
         return None
 
+    def is_tuple_record(self, mod, cls):
+        return any(isinstance(b, ast.Name) and b.id == 'tuple' and self.resolve(mod, 'tuple') is None for b in cls.bases)
+
     def fields(self, mod, cls):
-        """(parameter names of __init__, [(field, expr)]) of the record-like class"""
-        init = self.member(mod, cls, '__init__')
+        """(parameter names of the constructor, [(field, expr)], (Mod, FunctionDef) defining it) of a record-like class:
+        __init__ consisting of `self.f = e`, or `class C(tuple)` with __new__ = `return tuple.__new__(cls, (e0, e1, ...))`
+        (fields named 0, 1, ...: read as self[i] in the methods of C)"""
+        init, new = self.member(mod, cls, '__init__'), self.member(mod, cls, '__new__')
+        if self.is_tuple_record(mod, cls) or new:
+            body = [s for s in (new[3].body if new else [])
+                    if not (isinstance(s, ast.Expr) and isinstance(s.value, ast.Constant) and isinstance(s.value.value, str))]
+            r = body[0].value if len(body) == 1 and isinstance(body[0], ast.Return) else None
+            if init or not new or new[2] is not cls or not self.is_tuple_record(mod, cls) or not (
+                    isinstance(r, ast.Call) and isinstance(r.func, ast.Attribute) and r.func.attr == '__new__'
+                    and isinstance(r.func.value, ast.Name) and r.func.value.id == 'tuple' and len(r.args) == 2 and not r.keywords
+                    and isinstance(r.args[0], ast.Name) and r.args[0].id == new[3].args.args[0].arg and isinstance(r.args[1], ast.Tuple)):
+                raise Unsupported('%s: a tuple subclass must have exactly __new__ = `return tuple.__new__(cls, (...))`' % cls.name)
+            self.check_args(new[3])
+            return [a.arg for a in new[3].args.args[1:]], [(str(i), e) for i, e in enumerate(r.args[1].elts)], (new[1], new[3])
         if init is None:
-            return [], []
+            return [], [], (mod, cls)
         fn = init[3]
         self.check_args(fn)
         fs = []
@@ -242,7 +258,7 @@ class Translator:
             if not ok or s.targets[0].attr.startswith('__') or s.targets[0].attr in [f for f, _ in fs]:
                 raise Unsupported('%s.__init__: only `self.f = e` statements: line %d' % (cls.name, s.lineno))
             fs.append((s.targets[0].attr, s.value))
-        return [a.arg for a in fn.args.args[1:]], fs
+        return [a.arg for a in fn.args.args[1:]], fs, (init[1], fn)
 
     def tag(self, mod, cls):
         return cstr(mod.short + '.' + cls.name)
@@ -252,12 +268,11 @@ class Translator:
 
         def go():
             self.member(mod, cls, '__bool__')  # scans the MRO for forbidden dunders
-            params, fs = self.fields(mod, cls)
-            init = self.member(mod, cls, '__init__')
+            params, fs, (dmod, dnode) = self.fields(mod, cls)
             env = {p: Var('a%d' % i) for i, p in enumerate(params)}
-            f = Fn(self, init[1] if init else mod, env)
+            f = Fn(self, dmod, env)
             vals = [f.expr(e) for _, e in fs]
-            hdr = '(* class %s: fields [%s]; %s *)' % (cls.name, '; '.join(x for x, _ in fs), mod.span(init[3] if init else cls))
+            hdr = '(* class %s: fields [%s]; %s *)' % (cls.name, '; '.join(x for x, _ in fs), dmod.span(dnode))
             return self.emit(key, name, hdr, len(params), '%spy_obj %s [%s]%s' % (
                 ''.join('py_strict a%d (' % i for i in range(len(params))), self.tag(mod, cls), '; '.join(vals), ')' * len(params)))
         name = 'py_%s_%s' % (mod.short, cls.name)
@@ -353,6 +368,9 @@ class Translator:
             outs = Fn(self, mod, {}).out_params(fn, params)
             env = {p: Var('a%d' % i, owned=(i in outs)) for i, p in enumerate(params)}
             f = Fn(self, mod, env, outs=[params[i] for i in outs])
+            if cls is not None and params and self.is_tuple_record(mod, cls) and 'staticmethod' not in [getattr(d, 'id', '') for d in fn.decorator_list]:
+                self.fields(mod, cls)  # checks the shape of the class
+                f.self_tuple = (params[0], self.tag(mod, cls))
             body = f.block(fn.body, env, [params[i] for i in outs], 2)[0]
             if outs and name in self.recursive:
                 raise Unsupported('%s: recursive function with out parameters' % qual)
@@ -451,7 +469,7 @@ class Fn:
 
     def __init__(self, tr, mod, env, outs=()):
         self.tr, self.mod, self.env, self.outs = tr, mod, env, list(outs)
-        self.n, self.returns, self.locked = 0, [], set()
+        self.n, self.returns, self.locked, self.self_tuple = 0, [], set(), None
 
     def fresh_var(self):
         self.n += 1
@@ -771,6 +789,9 @@ class Fn:
                     return '(py_slice_from %s %d)' % (X(e.value, cap=False), lo.value)
                 self.bad(e, 'slice other than [k:] with a literal k >= 0')
             if isinstance(e.slice, ast.Constant) and type(e.slice.value) is int and e.slice.value >= 0:
+                if self.self_tuple and isinstance(e.value, ast.Name) and e.value.id == self.self_tuple[0] \
+                        and env.get(e.value.id) and env[e.value.id].coq == 'a0':  # self[i] in a method of a tuple subclass
+                    return '(py_field a0 %s %d)' % (self.self_tuple[1], e.slice.value)
                 return '(py_item %s %d)' % (X(e.value, cap=False), e.slice.value)
             return '(py_index %s %s)' % (X(e.value, cap=False), X(e.slice))
         if isinstance(e, ast.Attribute):
@@ -782,7 +803,7 @@ class Fn:
                 if self.tr.is_enum(r[1], r[2]):
                     return self.tr.enum_term(r[1], r[2], e.attr)
                 self.bad(e, 'class attribute')
-            if r:
+            if r and r[0] != 'const':
                 self.bad(e, 'attribute of %s' % (r[0],))
             return '(%s %s)' % (self.tr.dispatcher(e.attr), X(e.value, cap=False))
         if isinstance(e, ast.Call):
@@ -875,6 +896,19 @@ TARGETS = {
                                                       'point', 'unlimited_with_unlimited_inversion', 'unlimited_with_finite_inversion')] + [
         (_IV + 'w_inversion.combinations', q) for q in ('_not_nones', '_of', 'union', 'intersection')] + [
         (_IV + 'w_inversion.intervals', '.inversion')]),
+    'Outcome': dict(prop='C02', world=['exactly_lib.common.exit_value'], roots=[
+        ('exactly_lib.test_case.test_case_status', 'TestCaseStatus'), ('exactly_lib.execution.result', 'ExecutionFailureStatus'),
+        ('exactly_lib.execution.full_execution.result', 'FullExeResultStatus'),
+        ('exactly_lib.execution.full_execution.result', 'translate_status'),
+        ('exactly_lib.processing.test_case_processing', 'AccessErrorType'),
+        ('exactly_lib.common.exit_value', 'ExitValue'), ('exactly_lib.common.exit_value', '.exit_code'),
+        ('exactly_lib.common.exit_value', '.exit_identifier')] + [
+        ('exactly_lib.processing.exit_values', q) for q in ('NO_EXECUTION_EXIT_CODE', 'from_access_error', '_for_full_result',
+                                                          '_FOR_FULL_RESULT', 'from_full_result', 'EXECUTION__INTERNAL_ERROR')]),
+    'Reporters': dict(prop='C16', world=[], roots=[
+        ('exactly_lib.execution.full_execution.result', 'FullExeResultStatus'),
+        ('exactly_lib.test_suite.reporters.simple_progress_reporter', 'SUCCESS_STATUSES'),
+        ('exactly_lib.test_suite.reporters.junit', 'FAIL_STATUSES'), ('exactly_lib.test_suite.reporters.junit', 'ERROR_STATUSES')]),
 }
 
 
